@@ -37,3 +37,8 @@ CHECKS["C12"] = ("exploration",
   "Every operator is run through Component::execute on a prepared stack (with populations below) and through Replacement::replace on exhaustive small populations (ties, duplicates) and random ones (sizes 0-8, unevaluated and +inf objectives, every mu incl. 0 and above the total); the result must be a sub-multiset of parents and offspring with the operator-specific content, the stack must shrink by exactly one and everything below stay untouched.",
   "Fitness-based operators only get evaluated individuals. Which of several tied individuals survives is not asserted.",
   "DESIGN.md §6 C12")
+CHECKS["C11"] = ("exploration",
+  "proptest over (operator, parameters, population, seed) with multiset-containment / cardinality / layout predicates, plus seeded frequency tests for selection pressure (6 sqrt(N) band)",
+  "All fourteen selection operators are run through Component::execute (source at depth 1 unchanged, one population pushed, populations below untouched) and Selection::select (references must point into the source) over random populations with ties, duplicates by value, negative, +inf and scaled objectives and all requested counts incl. 0 and the population size; documented unusable inputs must be errors. Fitness-based operators additionally face fixed well-separated populations with N draws: a better individual must not be drawn less often than a worse one beyond 6 sqrt(N), and proportional_weights must be monotone, non-negative and normalised.",
+  "Statistical part: deviations inside the band are invisible. Degenerate inputs without documented behaviour are excluded (listed in evidence.assumptions).",
+  "DESIGN.md §6 C11")
